@@ -1,5 +1,8 @@
 import GLua.Engines.TableEng
 import GLua.Engines.SemEng
+import GLua.Engines.LimitsEng
+import GLua.Engines.C16Eng
+import GLua.Engines.ScopeEng
 import GLua.Engines.LexEng
 import GLua.Engines.CancelEng
 import GLua.Engines.MetaEng
@@ -15,6 +18,7 @@ open GLua GLua.Eng
 
 structure DState where
   tbl : TableEng.St := []
+  lim : LimitsEng.St := {}
   meta04 : MetaEng.St := {}
   chan : ChanEng.St := {}
   co : CoEng.St := {}
@@ -30,6 +34,9 @@ def stepLine (s : DState) (line : String) : DState × String :=
   | "reset" :: _ => ({}, "ok")
   | "T" :: r => let (t, v) := TableEng.handle s.tbl r; ({ s with tbl := t }, v.show)
   | "S" :: r => (s, SemEng.handle r)
+  | "C12" :: r => let (t, v) := LimitsEng.handle s.lim r; ({ s with lim := t }, v.show)
+  | "C16" :: r => (s, (C16Eng.handle r).show)
+  | "C17M" :: r => (s, (ScopeEng.handle r).show)
   | "L" :: r => (s, (LexEng.handle r).show)
   | "C11M" :: r => (s, (CancelEng.handle r).show)
   | "C04M" :: r => let (t, v) := MetaEng.handle s.meta04 r; ({ s with meta04 := t }, MetaEng.render v)
